@@ -16,7 +16,8 @@ RULE = ec.RULE + ("; plus C04 extras: plans mixing checkpoints, clear_checkpoint
 
 
 def cases(rng, tier):
-    return ec.gen_cases(rng, tier) + ecc.c04_cases(rng, tier)
+    extra = ecc.c04_cases(rng, tier)
+    return ec.gen_cases(rng, tier) + extra + ec.stagest_variants(extra, 2 if tier == "quick" else 1)
 
 
 def oracle(case, obs):
